@@ -476,3 +476,25 @@ func VInsertLeftEdge(ael []VAelEdge, ae VAelEdge) (order []int) {
 	}
 	return order
 }
+
+// VOffsetPolygonRaw runs the real buildNormals + offsetPolygon on one closed path with the given group
+// delta, join type and miter limit and returns the raw ring (what doGroupOffset appends to the solution
+// before the final union).
+func VOffsetPolygonRaw(path Path64, groupDelta float64, jt JoinType, miterLimit float64) Path64 {
+	co := NewClipperOffset(miterLimit, 0, false, false)
+	sol := Paths64{}
+	co.solution = &sol
+	co.groupDelta = groupDelta
+	co.delta = groupDelta
+	co.joinType = jt
+	co.endType = Polygon
+	if co.MiterLimit <= 1 {
+		co.mitLimSqr = 2.0
+	} else {
+		co.mitLimSqr = 2.0 / sqr(co.MiterLimit)
+	}
+	g := &Group{joinType: jt, endType: Polygon}
+	co.buildNormals(path)
+	co.offsetPolygon(g, path)
+	return sol[0]
+}
